@@ -283,6 +283,10 @@ pub enum Expr {
     /// narrowing cast `.try_as_uN().unwrap()` (reverts with 0 when out of range)
     Narrow(u16, Box<Expr>),
     Block(Box<Block>),
+    /// printed as the raw text (`{P}` = case prefix), evaluated as the inner expression: used to
+    /// reference compile-time evaluated items (consts, configurables) whose reference value is
+    /// the run-time semantics of their initializer
+    Raw(String, Box<Expr>),
 }
 
 #[derive(Clone, Debug)]
@@ -345,6 +349,10 @@ pub struct Func {
 pub struct Program {
     pub decls: Decls,
     pub funcs: Vec<Func>,
+    /// raw top-level items (e.g. `const {P}X: u8 = …;`); `{P}` is replaced by the case prefix
+    pub raw_items: Vec<String>,
+    /// raw entries of the package's single `configurable { … }` block (`{P}K: u8 = …`)
+    pub configurables: Vec<String>,
 }
 
 pub fn lit(v: Value) -> Expr {
@@ -466,6 +474,7 @@ impl<'a> Printer<'a> {
             Expr::Widen(b, e) => format!("{}.as_u{b}()", self.expr(e)),
             Expr::Narrow(b, e) => format!("{}.try_as_u{b}().unwrap()", self.expr(e)),
             Expr::Block(b) => self.block(b, 0),
+            Expr::Raw(s, _) => s.clone(),
         }
     }
 
@@ -932,6 +941,7 @@ impl<'a> Interp<'a> {
                 _ => stuck("narrow"),
             },
             Expr::Block(b) => self.block(b),
+            Expr::Raw(_, e) => self.eval(e),
         }
     }
 
@@ -1185,21 +1195,47 @@ pub const PRELUDE: &str = "script;\n\n#[inline(never)]\nfn opq<T>(x: T) -> T { a
 /// are prefixed with the case index so that cases never share code by accident (sharing happens
 /// only through the compiler — e.g. fn-dedup — which is the point).
 pub fn render_package(cases: &[Case]) -> String {
+    render_package_with_ranges(cases).0
+}
+
+/// Like `render_package`, also returning for every case the byte ranges of the source that belong
+/// to it (its items + test entry, and its entries inside the shared `configurable` block), so that
+/// compile errors can be attributed to cases by span.
+pub fn render_package_with_ranges(cases: &[Case]) -> (String, Vec<Vec<(usize, usize)>>) {
     let mut o = String::from(PRELUDE);
+    let mut ranges: Vec<Vec<(usize, usize)>> = vec![vec![]; cases.len()];
+    if cases.iter().any(|c| !c.prog.configurables.is_empty()) {
+        o.push_str("configurable {\n");
+        for (i, c) in cases.iter().enumerate() {
+            let start = o.len();
+            for k in &c.prog.configurables {
+                let _ = writeln!(o, "    {},", k.replace("{P}", &format!("C{i}_")));
+            }
+            if o.len() > start {
+                ranges[i].push((start, o.len()));
+            }
+        }
+        o.push_str("}\n\n");
+    }
     for (i, c) in cases.iter().enumerate() {
+        let case_start = o.len();
         let prog = rename_program(&c.prog, &format!("c{i}_"));
         let body = rename_stmts(&c.body, &format!("c{i}_"), &c.prog);
         let p = Printer { d: &prog.decls };
         let _ = writeln!(o, "// case {i}: {}", c.desc.replace('\n', " "));
         o.push_str(&p.decls());
+        for it in &c.prog.raw_items {
+            let _ = writeln!(o, "{}", it.replace("{P}", &format!("C{i}_")));
+        }
         for f in &prog.funcs {
             o.push_str(&p.func(f));
         }
         let _ = writeln!(o, "#[test]\nfn t{i}() {{");
         o.push_str(&p.stmts(&body, 1));
         o.push_str("}\n\n");
+        ranges[i].push((case_start, o.len()));
     }
-    o
+    (o, ranges)
 }
 
 fn rename_program(p: &Program, prefix: &str) -> Program {
@@ -1298,5 +1334,6 @@ fn rename_expr(e: &Expr, prefix: &str, p: &Program) -> Expr {
         Expr::Widen(b, a) => Expr::Widen(*b, r(a)),
         Expr::Narrow(b, a) => Expr::Narrow(*b, r(a)),
         Expr::Block(b) => Expr::Block(Box::new(rename_block(b, prefix, p))),
+        Expr::Raw(s, a) => Expr::Raw(s.replace("{P}", &prefix.to_uppercase()), r(a)),
     }
 }
